@@ -46,6 +46,8 @@ type Snap struct {
 	RawSV      []uint64
 	BlkMapped  []uint64
 	RawMapped  []uint64
+	LoSV       []uint64 // raw?scale=1&supervoxels=true (only with Geom.Lo)
+	LoMapped   []uint64 // raw?scale=1
 	Bodies     map[uint64]*BodyObs
 	SVs        map[uint64]*SVObs
 	Mappings   [][2]uint64
@@ -93,6 +95,12 @@ func (s Srv) takeSnapU(uuid string, ver int, uni *[]uint64, add func(...uint64),
 	bad("raw-sv", st)
 	sn.RawMapped, st = s.getRaw(uuid, false)
 	bad("raw-mapped", st)
+	if s.g.Lo {
+		sn.LoSV, st = s.getRawLo(uuid, true)
+		bad("raw-sv-scale1", st)
+		sn.LoMapped, st = s.getRawLo(uuid, false)
+		bad("raw-mapped-scale1", st)
+	}
 
 	sizes, st := s.getSizes(uuid, universe, false)
 	bad("sizes", st)
@@ -228,6 +236,22 @@ func (g Geom) checkSnap(sn *Snap) []string {
 	}
 	if !equalU64(want, sn.RawMapped) {
 		e("raw (mapped) differs from voxels pushed through mapping: %d voxels", countDiff(want, sn.RawMapped))
+	}
+	if g.Lo {
+		// scale 1 = the documented down-sampling of the supervoxel voxels; mapped = pushed through mapping
+		wantLo := g.downres(sn.SV)
+		if !equalU64(wantLo, sn.LoSV) {
+			e("scale 1 (supervoxels) differs from the down-sampling of scale 0: %d voxels", countDiff(wantLo, sn.LoSV))
+		}
+		wm := make([]uint64, len(sn.LoSV))
+		for i, sv := range sn.LoSV {
+			if sv != 0 {
+				wm[i] = mapOf(sv)
+			}
+		}
+		if !equalU64(wm, sn.LoMapped) {
+			e("scale 1 (mapped) differs from scale 1 supervoxels pushed through mapping: %d voxels", countDiff(wm, sn.LoMapped))
+		}
 	}
 	if body0 := sc.bodySize[0]; body0 != 0 {
 		e("%d non-zero voxels belong to body 0 (lost)", body0)
@@ -437,6 +461,36 @@ func (g Geom) checkSnap(sn *Snap) []string {
 		e("maxlabel: want >= %d, got st=%d %d", mx, sn.MaxLabel.St, sn.MaxLabel.V)
 	}
 	return errs
+}
+
+// downres: each scale-1 voxel is the most frequent non-zero label of its 8 children, the smallest
+// on ties, 0 if all are 0 (Go copy of the oracle, for -probe).
+func (g Geom) downres(vol []uint64) []uint64 {
+	h := g.Half()
+	n := h.N()
+	out := make([]uint64, h.NVox())
+	for z := 0; z < n[2]; z++ {
+		for y := 0; y < n[1]; y++ {
+			for x := 0; x < n[0]; x++ {
+				votes := map[uint64]int{}
+				for d := 0; d < 8; d++ {
+					l := vol[g.Idx(2*x+d&1, 2*y+(d>>1)&1, 2*z+(d>>2)&1)]
+					if l != 0 {
+						votes[l]++
+					}
+				}
+				var win uint64
+				wv := 0
+				for l, v := range votes {
+					if v > wv || (v == wv && l < win) {
+						win, wv = l, v
+					}
+				}
+				out[h.Idx(x, y, z)] = win
+			}
+		}
+	}
+	return out
 }
 
 func countDiff(a, b []uint64) int {
